@@ -55,9 +55,13 @@ type wrapSM struct {
 	calls int
 	idle  int
 	seen  map[string]int
+	yield func()
 }
 
 func (w *wrapSM) PushRune(r rune) int {
+	if w.yield != nil {
+		w.yield()
+	}
 	w.calls++
 	var before LexCfg
 	if w.tap != nil {
@@ -105,6 +109,10 @@ func (w *wrapSM) Token() int { return w.inner.Token() }
 func (w *wrapSM) Reset()     { w.inner.Reset() }
 
 func runLex(e *LexEntry, input []byte, rec bool, maxTok int) (run LexRun) {
+	return runLexWith(e, input, rec, maxTok, nil)
+}
+
+func runLexWith(e *LexEntry, input []byte, rec bool, maxTok int, yield func()) (run LexRun) {
 	if watch.on {
 		watch.begin(fmt.Sprintf("%q", input))
 		defer watch.end()
@@ -113,7 +121,7 @@ func runLex(e *LexEntry, input []byte, rec bool, maxTok int) (run LexRun) {
 		fmt.Fprintf(os.Stderr, "TRACE %q\n", input)
 	}
 	sm, tap := e.New()
-	w := &wrapSM{inner: sm, tap: tap, rec: rec}
+	w := &wrapSM{inner: sm, tap: tap, rec: rec, yield: yield}
 	defer func() {
 		if r := recover(); r != nil {
 			if s, ok := r.(stop); ok {
